@@ -33,6 +33,7 @@ def run(tier, seed):
                                       "--end", "drop", "--flushpct", "25", "--forcesync", "1", "--faultat", str(rng.choice([0, 0, 40])),
                                       "--faultmode", "3", "--maximages", "100", "--cc", "0"]))
     jobs += ce.full_device_jobs(rng, 8 if tier == "quick" else 48, maximages="300" if tier == "quick" else "1500")
+    jobs += ce.huge_extent_jobs(rng, 1 if tier == "quick" else 6)
     # MC: write-behind / journal / retirement protocol, every crash image of every reachable state
     mc_viol = []
     mcs = [ce.mc_model(rd, "MCWriteBehind", "MCWriteBehind_quick_warm.cfg" if tier == "quick" else "MCWriteBehind_full_warm.cfg",
